@@ -115,7 +115,9 @@ OnRet(m, e) ==
     [] e.op = "Unregister" ->
          <<[m1 EXCEPT !.unregOpen[e.c] = @ - 1, !.gone[e.c] = (@ \/ call.def)],
            (IF call.sole /\ m.shut[e.c] # 1 THEN {V("unregister-without-shutdown", e, m.cfg.kinds[e.c])} ELSE {})
-           \cup (IF call.sole /\ HasExporter(m.cfg.kinds[e.c]) /\ m.xshut[e.c] # 1
+           \* (when a Shutdown with a done context ran concurrently it may have shut this component down and left the
+           \* exporter's shutdown to a background goroutine: then only "never" is judged, at the end of the scenario)
+           \cup (IF call.sole /\ HasExporter(m.cfg.kinds[e.c]) /\ (IF m.canc THEN m.xshut[e.c] > 1 ELSE m.xshut[e.c] # 1)
                    THEN {V("exporter-shutdown-missing", e, m.cfg.kinds[e.c])} ELSE {})>>
     [] e.op = "Shutdown" ->
          LET liveRet == m.sdLiveRet \/ call.ctx \notin {"cancelled", "expiring"}
